@@ -166,6 +166,15 @@ extern "C" {{
     pub fn probe_g{k}_ref(o: &Gr{k}Ref<'static>);
 }}
 """})
+    # groups that mix in built-in external traits (the generator keeps those in a HashMap)
+    exts = ["Clone", "::ext::core::fmt::Debug", "::ext::core::fmt::Display", "::ext::core::convert::AsRef<u64>"]
+    for k in range(max(2, n_groups // 3)):
+        if len(rnd) < 2:
+            break
+        pick = rng.sample(range(len(rnd)), 2)
+        e = rng.sample(exts, rng.randint(2, 4))
+        src = f"Ge{k}, {rnd[pick[0]].name}, {{ {', '.join(e + [rnd[pick[1]].name])} }}"
+        defs.append({"id": f"x{k}", "kind": "group", "src": src, "nontrivial": True, "label": "group-with-ext-traits", "uses": [f"r{i}" for i in pick], "lint": False, "extra": "//@@"})
     return defs
 
 
